@@ -54,6 +54,10 @@
 #define C_b_difference_POSTS(R) \
   POST(contains_difference, !(G_satX0 && !G_satY0) || box_sat(x, G_xs)) \
   POST(x_wf, box_wf(x, G_xs)) KEEP_Y
+/* time_elapse_assign(y): every point p + t*q with p in x, q in y, t >= 0 (stated for integer t; the real ones follow by convexity) */
+#define C_b_time_elapse_POSTS(R) \
+  POST(contains_elapsed_points, !(G_satX0 && G_satQ0 && G_t >= 0 && G_t <= 256) || box_sat_pt(x, G_xs, ELAPSED(0), ELAPSED(1))) \
+  POST(x_wf, box_wf(x, G_xs)) KEEP_Y
 #define C_b_topological_closure_POSTS(R) \
   POST(contains_x, !G_satX0 || box_sat(x, G_xs)) \
   POST(x_wf, box_wf(x, G_xs))
@@ -69,7 +73,7 @@
 #define BOX_MUT2(OP)  void FN_b_##OP(BOX_T *x, const BOX_T *y) PRE_BXY ASSIGNS(FRAME_B) C_b_##OP##_POSTS(0);
 BOX_PRED1(is_empty) BOX_PRED1(is_universe) BOX_PRED1(is_bounded) BOX_PRED1(is_discrete) BOX_PRED1(is_topologically_closed)
 BOX_PRED2(contains) BOX_PRED2(strictly_contains) BOX_PRED2(is_disjoint_from) BOX_PRED2(equal)
-BOX_MUT2(intersection) BOX_MUT2(upper_bound) BOX_MUT2(difference)
+BOX_MUT2(intersection) BOX_MUT2(upper_bound) BOX_MUT2(difference) BOX_MUT2(time_elapse)
 _Bool FN_b_upper_bound_if_exact(BOX_T *x, const BOX_T *y) PRE_BXY ASSIGNS(FRAME_B) C_b_upper_bound_if_exact_POSTS(RET);
 void FN_b_topological_closure(BOX_T *x) PRE_BX ASSIGNS(FRAME_B) C_b_topological_closure_POSTS(0);
 void FN_b_unconstrain(BOX_T *x, uint64_t v) PRE_BX PRE(var, v < BOX_D) ASSIGNS(FRAME_B) C_b_unconstrain_POSTS(0);
